@@ -191,6 +191,88 @@ TD_LOOPS = {
 _SELECTION = ("argmax", "epsilon_greedy_policy", "epsilon", "key", "subkey", "jax", "random", "split")
 
 
+def _flag_complement(nf, p, flag):
+    """The termination flag of the step protocol is a truth value: `logical_not(flag)` / `not flag` used as a factor is 1 - flag."""
+    mp = {}
+    for a in p.atoms():
+        m = nf.meta.get(a) or {}
+        if (m.get("fn", "").split(".")[-1] == "logical_not" and len(m.get("args", [])) == 1 and not m.get("kws") and m["args"][0] == flag) or a == f"not({flag.canon()})":
+            mp[a] = Poly.const(1) - flag
+        elif m.get("fn", "").split(".")[-1] == "bool" and len(m.get("args", [])) == 1 and not m.get("kws") and m["args"][0] == flag:
+            mp[a] = flag          # the truth value of a truth value
+    return p.subst(mp) if mp else p
+
+
+def _step_result_carried_whole(fn):
+    """None, or a copy of ``fn`` in which a step result that is first kept whole (`t = env.step(a)`, `t` bound nowhere else in the routine)
+    is unpacked into the five protocol positions where it is produced, `t` being the tuple of the five: reading `t` later (unpacking it,
+    `t[k]`, `t[:2]`, `t[2:]`) is then reading those positions.  The original tree is not touched."""
+    from ..expand import clone
+    params = set(param_names(fn))
+    hits = [s for s in ast.walk(fn) if isinstance(s, ast.Assign) and len(s.targets) == 1 and isinstance(s.targets[0], ast.Name)
+            and isinstance(s.value, ast.Call) and isinstance(s.value.func, ast.Attribute) and s.value.func.attr == "step"
+            and isinstance(s.value.func.value, ast.Name) and s.value.func.value.id in params]
+    if len(hits) != 1:
+        return None
+    whole = hits[0].targets[0].id
+    used = {x.id for x in ast.walk(fn) if isinstance(x, ast.Name)} | params
+    stores = [x for x in ast.walk(fn) if isinstance(x, (ast.Name, ast.arg)) and (getattr(x, "id", None) == whole or getattr(x, "arg", None) == whole) and not isinstance(getattr(x, "ctx", None), ast.Load)]
+    if len(stores) != 1 or any(isinstance(x, (ast.FunctionDef, ast.Lambda, ast.ClassDef, ast.Global, ast.Nonlocal)) for x in ast.walk(fn) if x is not fn):
+        return None       # rebound / deleted somewhere, or nested scopes that may do so: not read
+    pos = [f"{whole}__{k}" for k in range(5)]
+    if set(pos) & used:
+        return None
+    new = clone(fn)
+
+    def five(ctx):
+        return ast.Tuple(elts=[ast.Name(id=p_, ctx=ctx()) for p_ in pos], ctx=ctx())
+
+    def lit(e, default):
+        if e is None:
+            return default
+        if isinstance(e, ast.UnaryOp) and isinstance(e.op, ast.USub) and isinstance(e.operand, ast.Constant) and type(e.operand.value) is int:
+            return 5 - e.operand.value
+        return e.value if isinstance(e, ast.Constant) and type(e.value) is int and e.value >= 0 else None
+
+    class Reads(ast.NodeTransformer):
+        def visit_Subscript(self, node):
+            self.generic_visit(node)
+            if isinstance(node.value, ast.Name) and node.value.id == whole and isinstance(node.ctx, ast.Load):
+                s = node.slice
+                if isinstance(s, ast.Slice) and s.step is None:
+                    lo, hi = lit(s.lower, 0), lit(s.upper, 5)
+                    if lo is not None and hi is not None and 0 <= lo <= hi <= 5:
+                        return ast.copy_location(ast.Tuple(elts=[ast.Name(id=p_, ctx=ast.Load()) for p_ in pos[lo:hi]], ctx=ast.Load()), node)
+                k = lit(s, None)
+                if k is not None and 0 <= k < 5:
+                    return ast.copy_location(ast.Name(id=pos[k], ctx=ast.Load()), node)
+            return node
+
+    def block(stmts):
+        out = []
+        for st in stmts:
+            for f in ("body", "orelse", "finalbody"):
+                v = getattr(st, f, None)
+                if isinstance(v, list) and v and isinstance(v[0], ast.stmt):
+                    setattr(st, f, block(v))
+            for h in getattr(st, "handlers", []) or []:
+                h.body = block(h.body)
+            if isinstance(st, ast.Assign) and len(st.targets) == 1 and isinstance(st.targets[0], ast.Name) and st.targets[0].id == whole:
+                out.append(ast.copy_location(ast.Assign(targets=[five(ast.Store)], value=st.value), st))
+                out.append(ast.copy_location(ast.Assign(targets=[ast.Name(id=whole, ctx=ast.Store())], value=five(ast.Load)), st))
+            else:
+                out.append(Reads().visit(st))
+        return out
+    new.body = block(new.body)
+    ast.fix_missing_locations(new)
+    for parent in ast.walk(new):
+        for child in ast.iter_child_nodes(parent):
+            child._parent = parent
+    if hasattr(fn, "_module"):
+        new._module = fn._module
+    return new
+
+
 def _td_loops(ck, repo, nf):
     """The training loop and its update helper are read together: on every path of one iteration (from env.step to the next iteration)
     the new table is the old table with exactly one entry changed - the entry (observation acted on, action passed to env.step) - by
@@ -199,11 +281,15 @@ def _td_loops(ck, repo, nf):
     from ..loops import find_env_loop, strip_wrappers
     n_loops = 0
     for tq, spec in TD_LOOPS.items():
-        fn0 = repo.func(tq)
-        if any(isinstance(x, ast.Assign) and isinstance(x.value, ast.IfExp) for x in ast.walk(fn0)):
+        fn0 = fn1 = repo.func(tq)
+        # `t = env.step(a)` with `t` taken apart later is read as the five-position unpacking it stands for
+        fn1 = _step_result_carried_whole(fn1) or fn1
+        if any(isinstance(x, ast.Assign) and isinstance(x.value, ast.IfExp) for x in ast.walk(fn1)):
             # `a, b = (x, y) if c else (y, x)` is read as the two paths it stands for (the roles of the tables may be chosen that way)
+            fn1 = split_conditional_assignments(fn1)
+        if fn1 is not fn0:
             from ..cfg import CFG
-            L = find_env_loop(repo, tq, {tq: CFG(split_conditional_assignments(fn0))})
+            L = find_env_loop(repo, tq, {tq: CFG(fn1)})
         else:
             L = find_env_loop(repo, tq)
         cfg, mi, fn = L.cfg, L.mi, L.fn
@@ -227,6 +313,9 @@ def _td_loops(ck, repo, nf):
         ck.need(nvar and rvar and dvar, f"{tq}: step results are discarded (unrecognised form)")
         env0 = {p_: Poly.atom(p_, {p_}, {p_}) for p_ in params}
         env0.update({ovar: Poly.atom("S"), avar: Poly.atom("A"), nvar: Poly.atom("N"), rvar: Poly.atom("R"), dvar: Poly.atom("D")})
+        uvar = L.pos.get(3)
+        if uvar and uvar not in env0:
+            env0[uvar] = Poly.atom("U")       # the truncation flag of the step: a role of its own, never the mask of the bootstrap
         for t in tables:
             env0[t] = Poly.atom(t)
         # names bound in the iteration before the step (q = q1 + q2, ...): the same value on every way to the step
@@ -238,7 +327,7 @@ def _td_loops(ck, repo, nf):
         protected = set(env0)
         avals = []      # value of the action variable on the ways to the step: another name holding that value is the action too (a = int(action))
         for pp in pre:
-            pe0 = PathEval(nf, cfg, mi, tq, {k_: v_ for k_, v_ in env0.items() if k_ not in (avar, nvar, rvar, dvar)})
+            pe0 = PathEval(nf, cfg, mi, tq, {k_: v_ for k_, v_ in env0.items() if k_ not in (avar, nvar, rvar, dvar, uvar)})
             try:
                 pe0.run(pp[:-1])
             except Exception:
@@ -325,7 +414,7 @@ def _td_loops(ck, repo, nf):
                 raise AnalysisError(f"{tq}: `{own}` is updated at `{idx[:60]}` (unrecognised form)")
             ck.ob("R1-footprint", tq, f"write-index:{own}", ok_fp, f"{own}.at[{idx}].{op}(...)", "" if ok_fp else "the entry written is not [observation acted on, action passed to env.step] of the table being updated (exactly one entry changes per step)", where)
             read = nf.poly(parse_expr("OWN[S, A]"), Scope(None, mi, {**env0, "OWN": env0[own]}, tq), None)
-            delta = (_flat(val) if op == "add" else _flat(val) - _flat(read)).subst(fix)
+            delta = _flag_complement(nf, _flat(val) if op == "add" else _flat(val) - _flat(read), env0[dvar]).subst(fix)
             # the bootstrap action
             offrow = []
             if spec["bootstrap"] in ("greedy", "double"):
@@ -352,6 +441,11 @@ def _td_loops(ck, repo, nf):
                 if spec.get("mask_optional"):
                     wants.append((want_delta(own, other, c_, False), c_))
             hit = next(((w, c_) for w, c_ in wants if w.subst(fix) == delta), None)
+            if hit is None and uvar and any(w.subst({"D": Poly.atom("U")}) == _flag_complement(nf, delta, Poly.atom("U")) for w, _c in wants if "D" in w.atoms()) and not fix:
+                # a dataflow fact: the increment is the textbook one with the truncation flag of the step in the place of the termination flag
+                ck.ob("R1-update-formula", tq, f"increment:{own}", False, f"increment = {delta.canon()[:170]}",
+                      "the bootstrap is masked by the truncation flag of the step (position 3 of its result), not by the termination flag (position 2): a time limit does not make the successor worthless, termination does", where)
+                continue
             if hit is None and not _evidence(delta, wants[0][0], _SELECTION):
                 raise AnalysisError(f"{tq}: increment `{delta.canon()[:120]}` (unrecognised form)")
             w0 = wants[0][0].subst(fix)
@@ -794,7 +888,7 @@ def _dyna_model(ck, repo, nf):
             continue
         seen.add((T, R))
         au, ar = _at_update(nf, T), _at_update(nf, R)
-        if au is None or ar is None or au[0] != P(f"{M}.transition") or ar[0] != P(f"{M}.reward") or au[2] != "set" or ar[2] != "set":
+        if au is None or ar is None or au[0] != P(f"{M}.transition") or ar[0] != P(f"{M}.reward") or au[2] != "set" or ar[2] not in ("set", "add"):
             raise AnalysisError(f"{q}: model fields are not rewritten with .at[...].set(...) of themselves: `{T.canon()[:80]}`, `{R.canon()[:80]}` (unrecognised form)")
         # transition: a value normalised by the row total changes with every visit of (s, a), so the whole row has to be rewritten
         _b, idx, _op, val = au
@@ -818,9 +912,29 @@ def _dyna_model(ck, repo, nf):
         else:
             raise AnalysisError(f"{q}: transition written at `{idx[:50]}` with `{val.canon()[:90]}` (unrecognised form)")
         # reward: mean of the rewards observed for exactly this transition
-        _b, idx, _op, val = ar
+        _b, idx, rop, val = ar
         val = _flat(val)
-        construct = f"`{M}.reward.at[{idx}].set({val.canon()[:90]})`"
+        construct = f"`{M}.reward.at[{idx}].{rop}({val.canon()[:90]})`"
+        old = _flat(P(f"{M}.reward[{idx3}]"))
+        if rop == "add" or old.single_atom() in val.atoms():
+            # the mean kept incrementally: the stored entry moves towards the newest reward of this transition by 1/n of their difference.
+            # With n the number of rewards recorded for (s, a, s') this is the running mean (whatever the table started with: n = 1 stores
+            # the reward itself) - provided the model follows the counter record by record, which is read off the training loop
+            if idx != idx3:
+                raise AnalysisError(f"{q}: reward kept incrementally at `{idx[:50]}` (unrecognised form)")
+            chg = val if rop == "add" else val - old
+            last = _flat(P(f"{C}.reward_history[{O}][{Ac}][{Nx}][-1]"))
+            own = [nf._libcall("len", [hist], {}, None), _flat(P(f"{C}.transition_counter[{O}][{Ac}][{Nx}]"))]
+            if any(chg == (last - old) * n_.inv() for n_ in own):
+                _model_follows_counter(ck, repo, nf, q)
+                ck.ob("R4-dyna-q", q, "reward-mean", True, construct + " (running mean)", "", where)
+                continue
+            if chg == (last - old) * tot.inv():
+                ck.ob("R4-dyna-q", q, "reward-mean", False, construct,
+                      "the running mean of the rewards of (s,a,s') moves by 1/n of the innovation with n the number of rewards observed for that transition; "
+                      "here n is the number of visits of (s,a) over all successors, which is larger as soon as (s,a) has been seen with two successors", where)
+                continue
+            raise AnalysisError(f"{q}: reward kept incrementally, entry changes by `{chg.canon()[:120]}` (unrecognised form)")
         want1 = nf._libcall("mean", [hist], {}, None)
         want2 = nf._libcall("sum", [hist], {}, None) * nf._libcall("len", [hist], {}, None).inv()
         if idx != idx3 and (":" in idx or not set(_names(idx)) <= {O, Ac, Nx}):
@@ -830,6 +944,43 @@ def _dyna_model(ck, repo, nf):
         if not okr and idx == idx3 and not by_row_total and not _evidence(val, want1, ("sum", "len")):
             raise AnalysisError(f"{q}: stored reward `{val.canon()[:120]}` (unrecognised form)")
         ck.ob("R4-dyna-q", q, "reward-mean", okr, construct, "" if okr else "R(s,a,s') must be the mean of the rewards observed for that transition", where)
+
+
+def _model_follows_counter(ck, repo, nf, mq):
+    """A model that is kept incrementally is right only if it is brought up to date once for every recorded transition: in the training
+    loop counter_update and model_update are each called once, unconditionally one after the other (statements of one block), for the
+    same (observation, action, successor).  Anything else is not decided here."""
+    tq, cq = A + "dynaq.train_dynaq", A + "dynaq.counter_update"
+    tfn = repo.func(tq)
+    mi = tfn._module
+    found = {}
+    for parent in ast.walk(tfn):
+        for f in ("body", "orelse", "finalbody"):
+            blk = getattr(parent, f, None)
+            if not isinstance(blk, list):
+                continue
+            for k, st in enumerate(blk):
+                for c in ast.walk(st) if isinstance(st, (ast.Assign, ast.Expr, ast.AnnAssign)) else ():
+                    if isinstance(c, ast.Call) and isinstance(c.func, (ast.Name, ast.Attribute)) and repo.resolve_expr(mi, c.func) in (cq, mq):
+                        found.setdefault(repo.resolve_expr(mi, c.func), []).append((id(blk), k, c))
+    n_all = sum(1 for c in ast.walk(tfn) if isinstance(c, ast.Call) and isinstance(c.func, (ast.Name, ast.Attribute)) and repo.resolve_expr(mi, c.func) in (cq, mq))
+    ck.need(n_all == 2 and len(found.get(cq, [])) == 1 and len(found.get(mq, [])) == 1, f"{tq}: counter_update / model_update are not called once each as plain statements (incremental model: unrecognised form)")
+    (b1, k1, c1), (b2, k2, c2) = found[cq][0], found[mq][0]
+    ck.need(b1 == b2 and k1 < k2, f"{tq}: model_update does not follow counter_update in one block (incremental model: unrecognised form)")
+
+    def bound(c, qual, roles):
+        names = param_names(repo.func(qual))
+        ck.need(not any(isinstance(a_, ast.Starred) for a_ in c.args) and all(k_.arg for k_ in c.keywords), f"{tq}: call of {qual} not bound (unrecognised form)")
+        b = dict(zip(names, c.args))
+        b.update({k_.arg: k_.value for k_ in c.keywords})
+        return [ast.dump(b[r_]) if r_ in b else None for r_ in _params_by_role(repo.func(qual), qual, roles)]
+    same = bound(c1, cq, ["obs", "act", "next_obs"]) == bound(c2, mq, ["obs", "act", "next_obs"]) and None not in bound(c1, cq, ["obs", "act", "next_obs"])
+    ck.need(same, f"{tq}: counter_update and model_update are not called for the same transition expressions (incremental model: unrecognised form)")
+    # (the same expressions denote the same values: no statement lies between the two calls that rebinds a name they read)
+    blk = next(getattr(p_, f_) for p_ in ast.walk(tfn) for f_ in ("body", "orelse", "finalbody") if isinstance(getattr(p_, f_, None), list) and id(getattr(p_, f_)) == b1)
+    read = {x.id for a_ in list(c2.args) + [k_.value for k_ in c2.keywords] for x in ast.walk(a_) if isinstance(x, ast.Name)}
+    between = {x.id for st in blk[k1 + 1:k2] for x in ast.walk(st) if isinstance(x, ast.Name) and isinstance(x.ctx, ast.Store)}
+    ck.need(not (read & between), f"{tq}: {sorted(read & between)} rebound between counter_update and model_update (incremental model: unrecognised form)")
 
 
 def _dyna_counter(ck, repo, nf):
@@ -920,7 +1071,18 @@ def _mc_scan_call(direction, init="(q_table, n_visits, jnp.zeros(()))", xs="(obs
     return f"    (q_table, n_visits, _), _ = jax.lax.scan(\n        _update_body, {init}, {xs}{direction}\n    )\n"
 
 
+_STEP5 = "        next_observation, reward, terminated, truncated, info = env.step(\n            int(action)\n        )\n"
+_Y_REWARD = "    model.reward = model.reward.at[obs, act, next_obs].set(\n        np.mean(counter.reward_history[obs][act][next_obs])\n    )"
+_Q_MASK = "    next_val = (1 - terminated) * q_table[next_observation, next_action]"
 MUTANTS = [
+    {"id": "c14-dyna-running-mean-over-row-visits", "file": _Y, "rule": "R4-dyna-q", "find": _Y_REWARD,
+     "replace": "    latest = counter.reward_history[obs][act][next_obs][-1]\n    model.reward = model.reward.at[obs, act, next_obs].add(\n        (latest - model.reward[obs, act, next_obs]) / counts.sum()\n    )"},
+    {"id": "c14-q-whole-step-flags-crossed", "file": _Q, "rule": "R1", "find": _STEP5,
+     "replace": "        outcome = env.step(int(action))\n        next_observation, reward = outcome[0], outcome[1]\n        truncated, terminated, info = outcome[2:]\n"},
+    {"id": "c14-q-continuing-flag-of-truncation", "file": _Q, "rule": "R1-update-formula", "edits": [("import jax\n", "import jax\nimport jax.numpy as jnp\n"), ("            terminated,\n            learning_rate,", "            truncated,\n            learning_rate,"),
+        (_Q_MASK, "    next_val = jnp.logical_not(terminated) * q_table[next_observation, next_action]")]},
+    {"id": "c14-q-continuing-flag-on-reward", "file": _Q, "rule": "R1", "edits": [("import jax\n", "import jax\nimport jax.numpy as jnp\n"),
+        (_Q_MASK + "\n    error = td_error(reward, gamma, val, next_val)", "    alive = jnp.logical_not(terminated)\n    error = td_error(alive * reward, gamma, val, q_table[next_observation, next_action])")]},
     {"id": "c14-q-wrong-next-index", "file": _Q, "rule": "R1", "find": "q_table[next_observation, next_action]", "replace": "q_table[next_observation, action]"},
     {"id": "c14-q-write-next", "file": _Q, "rule": "R1", "find": "    q_table = q_table.at[observation, action].add(learning_rate * error)", "replace": "    q_table = q_table.at[next_observation, action].add(learning_rate * error)"},
     {"id": "c14-q-no-mask", "file": _Q, "rule": "R1", "find": "    next_val = (1 - terminated) * q_table[next_observation, next_action]", "replace": "    next_val = q_table[next_observation, next_action]"},
@@ -967,6 +1129,20 @@ MUTANTS = [
     {"id": "c14-mc-result-dropped", "file": _M, "rule": "R3-monte-carlo", "find": "    q_table, n_visits, _ = jax.lax.fori_loop(", "replace": "    _, n_visits, _ = jax.lax.fori_loop("},
 ]
 BENIGN = [
+    {"id": "c14-b-dyna-running-mean-history-length", "file": _Y, "find": _Y_REWARD,
+     "replace": "    seen = counter.reward_history[obs][act][next_obs]\n    before = model.reward[obs, act, next_obs]\n    model.reward = model.reward.at[obs, act, next_obs].set(\n        before + (seen[-1] - before) / len(seen)\n    )"},
+    {"id": "c14-b-dyna-running-mean-own-count", "file": _Y, "find": _Y_REWARD,
+     "replace": "    times = counter.transition_counter[obs][act][next_obs]\n    latest = counter.reward_history[obs][act][next_obs][-1]\n    model.reward = model.reward.at[obs, act, next_obs].add(\n        (latest - model.reward[obs][act][next_obs]) / times\n    )"},
+    {"id": "c14-b-q-step-kept-whole", "file": _Q, "find": _STEP5,
+     "replace": "        outcome = env.step(int(action))\n        next_observation, reward, terminated = outcome[0], outcome[1], outcome[2]\n        truncated, info = outcome[-2], outcome[4]\n"},
+    {"id": "c14-b-dql-step-kept-whole-then-unpacked", "file": _D, "find": _STEP5,
+     "replace": "        outcome = env.step(int(action))\n        next_observation, reward, terminated, truncated, info = outcome\n"},
+    {"id": "c14-b-sarsa-step-kept-whole-slices", "file": _S, "find": _STEP5,
+     "replace": "        outcome = env.step(int(action))\n        next_observation, reward, terminated = outcome[:3]\n        truncated, info = outcome[3:5]\n"},
+    {"id": "c14-b-q-continuing-flag", "file": _Q, "edits": [("import jax\n", "import jax\nimport jax.numpy as jnp\n"),
+        (_Q_MASK, "    alive = jnp.logical_not(terminated)\n    next_val = q_table[next_observation, next_action] * alive")]},
+    {"id": "c14-b-sarsa-flag-as-bool", "file": _S, "find": _Q_MASK, "replace": "    done = bool(terminated)\n    next_val = (1 - done) * q_table[next_observation, next_action]"},
+    {"id": "c14-b-sarsa-not-terminated", "file": _S, "find": _Q_MASK, "replace": "    next_val = (not terminated) * q_table[next_observation, next_action]"},
     {"id": "c14-b-q-inline-td", "file": _Q, "find": "    error = td_error(reward, gamma, val, next_val)", "replace": "    error = reward + gamma * next_val - val"},
     {"id": "c14-b-q-set-form", "file": _Q, "find": "    q_table = q_table.at[observation, action].add(learning_rate * error)", "replace": "    q_table = q_table.at[observation, action].set(val + learning_rate * error)"},
     {"id": "c14-b-q-not-done", "file": _Q, "find": "    next_val = (1 - terminated) * q_table[next_observation, next_action]\n    error = td_error(reward, gamma, val, next_val)", "replace": "    not_done = 1 - terminated\n    error = td_error(reward, gamma * not_done, val, q_table[next_observation, next_action])"},
